@@ -5,12 +5,15 @@ NOTES = ("Every check re-compiles coq/theories/Properties/<id>.v (theorems over 
 NOT_APPLICABLE = {}
 CLAIMS = {
     "C07": {
-        "text": "Theorems over the Fetch model for every env and canon (14, closed under the global context) on D07 (distinct dot-free entry names; nested multiples and further master "
+        "text": "Theorems over the Fetch model for every env and canon (18, closed under the global context) on D07 (distinct dot-free entry names; nested multiples and further master "
                 "occurrences allowed; no deprecated; stable choices; $-free) under the single oracle hypothesis H_default_canonical (for each .multiple entry k, canon of k fetched against "
                 "itself = canon the master reports for k): re-fetching a result as an object is a fixed point; a master copy, the master object itself (Python's identity skip modelled), or "
                 "any master-like first source change nothing (equality of outcomes incl. errors); fetching nothing = fetching the master; any history of such cycles leaves W unchanged; "
                 "canon-free versions for masters without multiples. Refutations by witness exactly where the library fails: F7a (H_default_canonical false on nested non-canonical "
-                "defaults), F7d (single-alternative choice). PARTIAL: the re-parsed-text forms and 'defaults as first source' are decided by the stream on every run.",
+                "defaults), F7d (single-alternative choice). The TEXT form is proved too (C07_refetch_text, composing C07_refetch, the print/parse round trip of C01 and a "
+                "line-insensitive strengthening of C05's observational lemma): fetching parse(print W) gives W up to the line numbers of value words and with identical printed forms, "
+                "for masters without hidden templates, canon blind to word lines, and the shown part of W in the printer/parser round-trip domain (hypothesis, evaluated in the Example). "
+                "PARTIAL: 'defaults as first source' is decided by the stream on every run.",
         "note": "Trusted as C04 (Fetch model, canon oracle recorded per fetch call, identity probes for nested multiples). in_domain evaluates D07 incl. H_default_canonical through the "
                 "library's own extract_format on every case.",
     },
@@ -78,11 +81,13 @@ CLAIMS = {
                 "tmp marks and alias paths not modelled.",
     },
     "C13": {
-        "text": "Theorems over the Include model (8, closed under the global context): includes = tree-level inlining (sound and complete against an inductive expansion spec; iff when "
+        "text": "Theorems over the Include model (12, closed under the global context): includes = tree-level inlining (sound and complete against an inductive expansion spec; iff when "
                 "the reachable include graph is acyclic, diamonds allowed); every reachable cycle is reported as 'Include dependency cycle' with a genuine chain of include edges ending "
                 "in a repeated file, never an unbounded recursion; no false cycle; termination for every finite file table; relative names resolve against the including file's directory, "
-                "independent of the current directory. PARTIAL: the TEXT-level clause (tree = parse of the textually inlined text) is evaluated by the oracle on the implementation; "
-                "'include scope' is an oracle (unmodelled).",
+                "independent of the current directory. TEXT-level clause: the parser is compositional at object boundaries (parse (a ++ b) = parse a ++ parse b up to ids and lines, "
+                "with the exact boundary conditions), one include line commutes with inlining, and for files made of plain pieces and TOP-LEVEL include lines the include-processed tree "
+                "is the parse of the recursively inlined text at any depth (C13_includes_text_toplevel_partial). PARTIAL: include lines inside scopes (text level) are evaluated by the "
+                "oracle on the implementation; 'include scope' is an oracle (unmodelled).",
         "note": "Trusted: Coq kernel, extraction, driver, harness, hand-written model of parse(process_includes)/process_includes and posixpath join/normpath/dirname/abspath "
                 "(validated against os.path on 18k/72k paths); the file system + parser are one oracle table built by the real parser.",
     },
@@ -151,12 +156,14 @@ CLAIMS = {
         "note": "Trusted as C01. The oracle's view() is the property text made executable.",
     },
     "C02": {
-        "text": "PARTIAL proof + full correspondence. Theorems (all inputs, every oracle, closed under the global context): blanks/newlines/full-line comments in front of any "
-                "object at any depth are irrelevant (exact equality of collect_objects one position later; whole documents modulo line numbers); blanks around '='; newline "
-                "versus ';' as terminator; trailing '# comment'; '!' disables exactly the one construct it precedes (identical results and errors otherwise); fuel irrelevance; "
-                "token-level layout insensitivity. NOT proved: lifting through arbitrary preceding text to 'two renderings of one abstract tree parse alike', continuation lines, "
-                "nesting vs dotted names, off regions - these are decided on every run by executing freephil and the extracted parser on bounded-exhaustive + random renderings of "
-                "abstract trees from a layout grammar and by the oracle comparing with the abstract tree.",
+        "text": "Proof + full correspondence. Global theorem (all trees, all texts, every oracle, closed under the global context): an inductive layout grammar Renders t s (layout "
+                "between objects, blanks around '=', blank runs between words, newline / ';' / trailing comment / end of input as terminators, brace placement, '!', nested braces "
+                "or dotted names) is sound - every spelling of a tree parses to that tree - hence any two spellings of one tree parse alike, dotted and braced spellings agree up to the "
+                "merge flag, the printer's layout is one of the spellings, and the grammar is generated by decorated trees; each restriction of the grammar is shown necessary by an "
+                "Example. Local theorems: layout in front of any object at any depth (exact equality of collect_objects one position later), blanks around '=', newline versus ';', "
+                "trailing comment, '!' disables exactly one construct (identical results and errors otherwise), fuel irrelevance, token-level layout insensitivity. NOT in the grammar: "
+                "continuation lines, attributes, off regions - decided on every run by executing freephil and the extracted parser on bounded-exhaustive + random renderings of "
+                "abstract trees from the layout sampler and by the oracle comparing with the abstract tree.",
         "note": "Trusted: Coq kernel, extraction, driver, harness, hand-written model of tokenizer.py/parser.py, the layout grammar's notion of rendering. "
                 "Oracles: .type/.call construction, eval-based integers.",
     },
